@@ -32,6 +32,14 @@ SHAPES = {
         ("1.0000000000000000001", dict(p=("1.0000000000000000001", 0))), ("2U", dict(p=("2", 0))), ("-1U", dict(p=("-1", 0))), ("5m", dict(p=("5", -3))), ("-5m", dict(p=("-5", -3))), ("-0.005U", dict(p=("-0.005", 0))),
     ]),
     "scalar": dict(fields=[("s", "Scalar")], values=[("1", dict(s=1)), ("'1'", dict(s="1")), ("1.0", dict(s=1.0)), ("'w/5'", dict(s="w/5")), ("'w/6'", dict(s="w/6")), ("2", dict(s=2)), ("-2", dict(s=-2)), ("'-2.0'", dict(s="-2.0"))]),
+    "optstr": dict(fields=[("a", "Optional[str]"), ("n", "Optional[int]")], values=[
+        ("None|None", dict(a=None, n=None)), ("'None'|None", dict(a="None", n=None)), ("'none'|None", dict(a="none", n=None)), ("x|None", dict(a="x", n=None)),
+        ("None|0", dict(a=None, n=0)), ("''|None", dict(a="", n=None)), ("'0'|None", dict(a="0", n=None)),
+    ]),
+    "fset": dict(fields=[("f", "FrozenSet[str]")], values=[
+        ("abcd", dict(f=("alpha", "beta", "gamma", "delta"))), ("dcba", dict(f=("delta", "gamma", "beta", "alpha"))), ("abc", dict(f=("alpha", "beta", "gamma"))),
+        ("abce", dict(f=("alpha", "beta", "gamma", "epsilon"))), ("empty", dict(f=())), ("a,b", dict(f=("a,b",))), ("a|b", dict(f=("a", "b"))),
+    ]),
     "hdl": dict(fields=[("m", "Instantiable")], values=[("ModA", dict(m="ModA")), ("ModB", dict(m="ModB")), ("R1", dict(m="R1")), ("R2", dict(m="R2")), ("E1", dict(m="E1")), ("E2", dict(m="E2"))]),
 }
 
@@ -39,7 +47,7 @@ SHAPES = {
 def make_env():
     """Fresh generator machinery for one scenario: param-classes, generators with body counters, helper objects."""
     import enum
-    from typing import Optional
+    from typing import Optional, FrozenSet
     import hdl21 as h
     from hdl21.prefix import Prefix
     from decimal import Decimal
@@ -60,7 +68,7 @@ def make_env():
         ns = {}
         for n, t in fields:
             dt = {"str": str, "int": int, "Optional[float]": Optional[float], "float": float, "Enum": En, "Inner": Inner, "Prefixed": h.Prefixed,
-                  "Scalar": h.Scalar, "Instantiable": h.Instantiable}[t]
+                  "Scalar": h.Scalar, "Instantiable": h.Instantiable, "Optional[str]": Optional[str], "Optional[int]": Optional[int], "FrozenSet[str]": FrozenSet[str]}[t]
             ns[n] = h.Param(dtype=dt, desc=n)
         return h.paramclass(type("P", (), ns))
 
@@ -90,6 +98,8 @@ def make_env():
                 v = h.Prefixed(number=Decimal(v[0]), prefix=Prefix.from_exp(v[1]))
             elif t == "Instantiable":
                 v = objs[v]
+            elif t == "FrozenSet[str]":
+                v = frozenset(v)
             out[n] = v
         return out
 
